@@ -15,6 +15,9 @@ use vharness::ptypes::PType;
 use vharness::registry;
 use vharness::universe::{Embed, Universe};
 
+#[global_allocator]
+static ALLOC: vharness::viol::GuardedAlloc = vharness::viol::GuardedAlloc;
+
 fn s<'a>(v: &'a Value, k: &str, d: &'a str) -> &'a str {
     v.get(k).and_then(|x| x.as_str()).unwrap_or(d)
 }
